@@ -309,6 +309,9 @@ func textSpecs() []*Spec {
 					return R{Undef: true, OutOfDomain: true} // FormatFloat takes a format byte: there is none
 				}
 				if len(f) != 1 {
+					for i := 0; i < len(f); i++ { // (a panic of FormatFloat with any of the bytes => out of domain)
+						strconv.FormatFloat(aF(a, 0), f[i], aI(a, 2), aI(a, 3))
+					}
 					return rUndef() // more than one byte: which one is used is not documented
 				}
 				return rS(strconv.FormatFloat(aF(a, 0), f[0], aI(a, 2), aI(a, 3)))
